@@ -110,7 +110,7 @@ enum EvK {
     Join { group: IpAddr, ok: bool },
     Leave { group: IpAddr, ok: bool },
     Send { id: u16, tag: u8, dst: SocketAddr, len: usize, err: Option<String> },
-    Recv { start_seq: u64, start_step: u32, buf: usize, first_pending: bool, outcome: Outcome },
+    Recv { start_seq: u64, start_step: u32, ready_step: u32, buf: usize, first_pending: bool, outcome: Outcome },
     DropSock,
 }
 
@@ -371,14 +371,14 @@ async fn run_actor(sh: Shared, host: usize, actor: usize, ops: Vec<Op>) {
                             Ok(r) => recv_outcome(&b, r.map(|(n, o)| (n, Some(o)))),
                             Err(_) => Outcome::Timeout,
                         };
-                        sh.ev(host, actor, EvK::Recv { start_seq: ss, start_step: st, buf: *buf as usize, first_pending: fp.get(), outcome });
+                        sh.ev(host, actor, EvK::Recv { start_seq: ss, start_step: st, ready_step: sh.step.get(), buf: *buf as usize, first_pending: fp.get(), outcome });
                     }
                     Op::TryRecv { buf } => {
                         let mut b = vec![0u8; *buf as usize];
                         let (ss, st) = (sh.log.seq(), sh.step.get());
                         let r = s.try_recv_from(&mut b);
                         let outcome = recv_outcome(&b, r.map(|(n, o)| (n, Some(o))));
-                        sh.ev(host, actor, EvK::Recv { start_seq: ss, start_step: st, buf: *buf as usize, first_pending: false, outcome });
+                        sh.ev(host, actor, EvK::Recv { start_seq: ss, start_step: st, ready_step: sh.step.get(), buf: *buf as usize, first_pending: false, outcome });
                     }
                     Op::Readable { buf, wait, reps, gap, consume } => {
                         let mut b = vec![0u8; *buf as usize];
@@ -386,6 +386,7 @@ async fn run_actor(sh: Shared, host: usize, actor: usize, ops: Vec<Op>) {
                         let fp = Rc::new(Cell::new(false));
                         let fut = FirstPoll { f: Box::pin(s.readable()), polled: false, first_pending: fp.clone() };
                         let ready = tokio::time::timeout(sh.tick() * (*wait as u32).max(1), fut).await.is_ok();
+                        let ready_step = sh.step.get();
                         if ready {
                             // the readiness event is not consumed yet: further waits must not lose it
                             for _ in 1..(*reps).max(1) {
@@ -399,11 +400,11 @@ async fn run_actor(sh: Shared, host: usize, actor: usize, ops: Vec<Op>) {
                             }
                         }
                         if !ready {
-                            sh.ev(host, actor, EvK::Recv { start_seq: ss, start_step: st, buf: *buf as usize, first_pending: fp.get(), outcome: Outcome::Timeout });
+                            sh.ev(host, actor, EvK::Recv { start_seq: ss, start_step: st, ready_step, buf: *buf as usize, first_pending: fp.get(), outcome: Outcome::Timeout });
                         } else if *consume {
                             let r = s.try_recv(&mut b).map(|n| (n, None));
                             let outcome = recv_outcome(&b, r);
-                            sh.ev(host, actor, EvK::Recv { start_seq: ss, start_step: st, buf: *buf as usize, first_pending: fp.get(), outcome });
+                            sh.ev(host, actor, EvK::Recv { start_seq: ss, start_step: st, ready_step, buf: *buf as usize, first_pending: fp.get(), outcome });
                         } else {
                             sh.count("readiness_left_unconsumed_for_next_op");
                             sh.log.ev(format!("s{} n{host}.a{actor} readable x{reps} (not consumed)", sh.step.get()));
@@ -440,7 +441,7 @@ fn drain(sh: &Shared, host: usize, actor: usize, s: &UdpSocket, buf: usize) {
         let r = s.try_recv_from(&mut b);
         let outcome = recv_outcome(&b, r.map(|(n, o)| (n, Some(o))));
         let empty = outcome == Outcome::Empty;
-        sh.ev(host, actor, EvK::Recv { start_seq: ss, start_step: st, buf, first_pending: false, outcome });
+        sh.ev(host, actor, EvK::Recv { start_seq: ss, start_step: st, ready_step: sh.step.get(), buf, first_pending: false, outcome });
         if empty {
             break;
         }
@@ -1038,14 +1039,14 @@ impl Property for C09 {
                             }
                         }
                     }
-                    EvK::Recv { start_seq, start_step, buf, first_pending, outcome } => {
+                    EvK::Recv { start_seq, start_step, ready_step, buf, first_pending, outcome } => {
                         if let Outcome::Data { len, bytes, .. } = outcome {
                             if *len == usize::MAX {
                                 violation = Some(Violation::new("RecvError", format!("n{}.a{} receive failed: {}", e.host, e.actor, String::from_utf8_lossy(bytes))));
                                 break;
                             }
                         }
-                        m.recv(RecvRec { start_seq: *start_seq, start_step: *start_step, seq: e.seq, step: e.step, sock: slot.unwrap(), buf: *buf, first_pending: *first_pending, outcome: outcome.clone() });
+                        m.recv(RecvRec { start_seq: *start_seq, start_step: *start_step, seq: e.seq, step: e.step, ready_step: *ready_step, sock: slot.unwrap(), buf: *buf, first_pending: *first_pending, outcome: outcome.clone() });
                     }
                     EvK::DropSock => {
                         m.drop_sock(slot.unwrap(), e.seq, e.step);
